@@ -284,7 +284,9 @@ func checkC02(r *Run) {
 			return
 		}
 	}
-	r.AddEvents(nOut)
+	if oc.Finished { // a query that has not returned still owns the sink's state
+		r.AddEvents(nOut)
+	}
 	r.Sched(string(schedule), tableString(L), tableString(R), tableString(S))
 	r.NonTrivial(len(L)+len(R) >= 2)
 	if joinKind == 4 {
